@@ -1921,6 +1921,7 @@ METHODS = {
     "true_divide": _binm("/"), "pow": _binm("**"), "matmul": m_matmul, "mm": m_matmul, "bmm": m_matmul,
     "neg": _unary("neg", lambda c, x: -x), "abs": _unary("abs", lambda c, x: z3.If(x >= 0, x, -x)),
     "square": _unary("square", lambda c, x: x * x),
+    "floor": _unary("floor", lambda c, x: x if z3.is_int(x) else z3.ToReal(z3.ToInt(x))),
     "exp": _unary("exp", _realfn("exp"), "real"), "log": _unary("log", _realfn("log"), "real"),
     "sqrt": _unary("sqrt", _realfn("sqrt"), "real"), "rsqrt": _unary("rsqrt", lambda c, x: 1 / _realfn("sqrt")(c, x), "real"),
     "sin": _unary("sin", _realfn("sin"), "real"), "cos": _unary("cos", _realfn("cos"), "real"),
